@@ -54,6 +54,9 @@ func GenOrder(t *rapid.T) *OrderCase {
 	if nh == 2 && rapid.Bool().Draw(t, "staggered") {
 		c.Pre = rapid.IntRange(1, 5).Draw(t, "pre")
 	}
+	if rapid.IntRange(0, 2).Draw(t, "canceller") == 0 {
+		c.CancelMod = rapid.IntRange(1, 5).Draw(t, "cancelMod")
+	}
 	c.Work = rapid.SliceOfN(rapid.IntRange(0, 4), 0, 5).Draw(t, "work")
 	c.Between = rapid.SliceOfN(rapid.IntRange(0, 2), 0, 3).Draw(t, "between")
 	return c
